@@ -391,7 +391,7 @@ def gen_header_extra(rx, hdr, p=0.3):
     if not rx.chance(p):
         return None
     return rx.pick({
-        "crypt": [[["encoded", True]], [["encrypted", True]], [["encoded", True], ["encoded", True]]],
+        "crypt": [[["encoded", True]], [["encrypted", True]], [["encoded", True], ["encoded", True]], [["encoded", False], ["encrypted", True]]],
         "enc": [[["encoded", True]], [["encrypted", False]], [["encrypted", True], ["encrypted", False]]],
         "raw": [[["encrypted", False]], [["encoded", True], ["encoded", False]], [["encoded", False]]],
     }[hdr])
